@@ -175,6 +175,7 @@ def run_hdiff(case, d, labels, excluded, known_keys):
                 pass        # external files are shared by name: mutations below never touch external datasets
         p = Prog()
         what = None
+        base_override = None
         if kind in ("sds_value", "sds_attr") and sds:
             cand = [o for o in sds if o["layout"] != "ext" and (kind == "sds_value" or o["attr"])]
             if not cand:
@@ -195,10 +196,30 @@ def run_hdiff(case, d, labels, excluded, known_keys):
                     # a large change: the top bit of the stored value is flipped
                     u = flat.view(flat.dtype.str.replace("i", "u"))
                     u[k] = u[k] ^ (1 << (8 * flat.dtype.itemsize - 1))
+                elif flat.dtype.kind == "f" and (pos // flat.size) % 2:
+                    # the smallest possible change of a small value: both files get a small value at k first (the
+                    # comparison base is a copy taken then), the mutated file the next representable one
+                    flat[k] = flat.dtype.type([0.25, 3e-20, -0.015625, 1e-30][(pos // flat.size // 2) % 4])
+                    p.call("i", "SDwritedata", V("s"), i32s(*([0] * len(shape))), None, i32s(*shape), c02.native(arr))
+                    p.call("i", "SDendaccess", V("s"))
+                    p.call("i", "SDend", V("sd"))
+                    rr0 = run(p, cwd=d, timeout=60)
+                    if not rr0.done or any(x.ret == -1 for x in rr0.res.values() if x.kind == "R"):
+                        raise Fail("harness: preparing the small-value base failed", detail=rr0.sanitizer_summary())
+                    base_override = "b%d.hdf" % mi
+                    shutil.copy(os.path.join(d, G), os.path.join(d, base_override))
+                    p = Prog()
+                    p.call("i", "SDstart", G, 3, bind="sd")
+                    p.call("i", "SDnametoindex", V("sd"), o["name"], bind="ix")
+                    p.call("i", "SDselect", V("sd"), V("ix"), bind="s")
+                    flat[k] = np.nextafter(flat[k], flat.dtype.type(1))
+                    labels.add("mut_float_one_ulp")
                 else:
                     flat[k] = flat[k] + 1 if flat[k] < 100 else flat[k] - 1
                 p.call("i", "SDwritedata", V("s"), i32s(*([0] * len(shape))), None, i32s(*shape), c02.native(arr))
                 what = "one element of dataset %s (layout %s, type %s)" % (o["name"], o["layout"], o["nt"])
+                if base_override:
+                    what += ": a small value changed to the next representable one"
             else:
                 av = c02.vals("int16", 3, 5).copy()
                 av[pos % 3] += 1
@@ -309,7 +330,7 @@ def run_hdiff(case, d, labels, excluded, known_keys):
         if not rr.done or any(x.ret == -1 for x in rr.res.values() if x.kind == "R"):
             raise Fail("harness: applying the mutation failed", mutation=what, detail=rr.sanitizer_summary(),
                        calls=[(l[:70], rr.res[i + 1].ret) for i, l in enumerate(p.lines) if i + 1 in rr.res][:12])
-        for a, b in ((F, G), (G, F)):
+        for a, b in ((base_override or F, G), (G, base_override or F)):
             rc, so, se = tool(d, "hdiff", [a, b])
             if rc != 1:
                 raise Fail("hdiff does not report a difference after a single-point change", changed=what, order=[a, b],
